@@ -23,6 +23,19 @@ def entry_info(ent):
     return 'base', [backbone], ids
 
 
+def is_as_id(x):
+    """Alternative-splicing record id as written by parseRMATS: <SE|A5SS|A3SS|RI|MXE>_<coordinates> (older form with '-'),
+    possibly prefixed by '<gene id>-'. A SECT-<n> id is NOT one (it merely contains the letters 'SE')."""
+    import re
+    return any(tok in AS_TAGS for tok in re.split('[-_]', x))
+
+
+def is_novel_orf(ent):
+    """Gene-qualified novel-ORF entry (tx|gene|[alt ids]|ORFn|idx): carries no variant of its own."""
+    f = ent.split('|')
+    return len(f) >= 3 and f[1].startswith('ENSG')
+
+
 def keep_entry(ent, coding, exprs, cutoff, keep_all_coding, keep_all_noncoding, denylisted, keep_canonical):
     kind, txs, ids = entry_info(ent)
     all_noncoding = not any(t in coding for t in txs)
@@ -38,7 +51,7 @@ def keep_entry(ent, coding, exprs, cutoff, keep_all_coding, keep_all_noncoding, 
         return True
     if kind in ('fusion', 'circ'):
         return True
-    if kind == 'base' and any(any(t in x for t in AS_TAGS) for x in ids):
+    if kind == 'base' and not is_novel_orf(ent) and any(is_as_id(x) for x in ids):
         return True
     return all(exprs[t] >= cutoff for t in txs)
 
@@ -73,14 +86,232 @@ def run_filter(wd, name, inp, opts):
     return drivers.read_fasta(outp)
 
 
+def judge(rng, ref, wd, fa, counters, viol, synthetic=False):
+    coding_true = {t.id for t in ref.all_txs() if t.coding}
+    use_index = rng.random() < 0.75
+    if use_index:
+        idx = drivers.generate_index(wd, f'{wd}/index')
+        refopt = dict(index_dir=idx, annotation_gtf=None)
+        coding = coding_true
+    else:
+        refopt = dict(index_dir=None, annotation_gtf=Path(wd) / 'annotation.gtf')
+        coding = coding_true
+    # expression table: values at cutoff-eps / cutoff / cutoff+eps
+    cutoff = rng.choice([0.0, 1.0, 5.5, 10.0])
+    txs = [t.id for t in ref.all_txs()]
+    exprs = {t: rng.choice([cutoff - 0.01, cutoff, cutoff + 0.01, 0.0, cutoff * 2 + 1]) for t in txs}
+    has_header = rng.random() < 0.5
+    delim = rng.choice(['\t', ','])
+    with open(f'{wd}/expr.txt', 'w') as fh:
+        skip = rng.randint(0, 2)
+        for _ in range(skip):
+            fh.write('# comment line\n')
+        if has_header:
+            fh.write(delim.join(['transcript_id', 'gene', 'TPM']) + '\n')
+        for t in txs:
+            fh.write(delim.join([t, 'G', repr(exprs[t])]) + '\n')
+    use_expr = rng.random() < 0.8
+    if has_header and rng.random() < 0.5:
+        cols = ('transcript_id', 'TPM')
+    else:
+        cols = ('1', '3')
+    if has_header and cols == ('1', '3'):
+        skip += 1          # numeric columns: the header line has to be skipped by the user
+    seqs = [s for _, s in fa]
+    deny = set(rng.sample(seqs, rng.randint(0, min(4, len(seqs))))) if rng.random() < 0.5 else set()
+    if deny:
+        with open(f'{wd}/deny.fasta', 'w') as fh:
+            for i, s in enumerate(sorted(deny)):
+                fh.write(f'>d{i}\n{s}\n')
+    lo = rng.choice([None, 0, 1])
+    hi = rng.choice([None, 0, 1, 2])
+    misc = None if (lo is None and hi is None) or rng.random() < 0.4 else (lo, hi)
+    enzyme = rng.choice(['trypsin', 'trypsin', 'lysc'])
+    opts = dict(denylist=Path(wd) / 'deny.fasta' if deny else None,
+                exprs_table=Path(wd) / 'expr.txt' if use_expr else None, skip_lines=skip, delimiter=delim,
+                tx_id_col=cols[0], quant_col=cols[1], quant_cutoff=cutoff if use_expr else None,
+                keep_all_coding=rng.random() < 0.3, keep_all_noncoding=rng.random() < 0.3,
+                keep_canonical=rng.random() < 0.4,
+                miscleavages=None if misc is None else f"{'' if misc[0] is None else misc[0]}:{'' if misc[1] is None else misc[1]}",
+                enzyme=enzyme, **refopt)
+    if misc is not None and (misc[0] is None or misc[1] is None):
+        # the CLI parses both bounds with int(): an open bound is not accepted; use closed ranges only
+        misc = (misc[0] if misc[0] is not None else 0, misc[1] if misc[1] is not None else 9)
+        opts['miscleavages'] = f'{misc[0]}:{misc[1]}'
+    inp = f'{wd}/out.fasta'
+    got = run_filter(wd, 'f1', inp, opts)
+    counters['filter_runs'] = 1
+
+    def canon(h):
+        out = set()
+        for e in h.split(' '):
+            b, ids, orf, idx = cv.parse_entry(e)
+            out.add((b, tuple(sorted(ids)), orf, idx))
+        return out
+    want = model_filter(fa, coding, exprs if use_expr else None, cutoff, opts['keep_all_coding'],
+                        opts['keep_all_noncoding'], deny, opts['keep_canonical'], enzyme, misc)
+    gotd = {s: canon(h) for h, s in got}
+    mech = None
+    if gotd != want and not use_index:
+        want0 = model_filter(fa, set(), exprs if use_expr else None, cutoff, opts['keep_all_coding'],
+                             opts['keep_all_noncoding'], deny, opts['keep_canonical'], enzyme, misc)
+        if gotd == want0:
+            mech = 'KF-FILTER-GTF-CODING'
+    if gotd != want:
+        only_w = sorted(set(want) - set(gotd))[:3]
+        only_g = sorted(set(gotd) - set(want))[:3]
+        diff = [(s, sorted(gotd[s]), sorted(want[s])) for s in gotd if s in want and gotd[s] != want[s]][:2]
+        viol.append({'kind': 'filter-mismatch', 'mech': mech,
+                     'msg': f'options { {k: str(v) for k, v in opts.items() if k not in ("index_dir", "annotation_gtf")} } '
+                            f'reference={"index" if use_index else "gtf"}: dropped-but-expected {only_w} kept-but-unexpected {only_g} '
+                            f'entry differences {diff}'})
+    if len(got) != len(gotd):
+        viol.append({'kind': 'filter-duplicates', 'msg': 'a sequence occurs twice in the output'})
+    entries_in = {s: canon(h) for h, s in fa}
+    for s, es in gotd.items():
+        if s not in entries_in or not es <= entries_in[s]:
+            viol.append({'kind': 'filter-not-subcollection', 'msg': f'{s}: {sorted(es)}'})
+            break
+    # idempotence
+    got2 = run_filter(wd, 'f2', f'{wd}/f1.fasta', opts)
+    if {s: canon(h) for h, s in got2} != gotd:
+        viol.append({'kind': 'filter-not-idempotent', 'msg': f'{len(gotd)} -> {len(got2)} peptides on the second pass',
+                     'mech': mech})
+    counters['idempotence_runs'] = 1
+    # monotonicity: stricter cutoff, narrower miscleavage range
+    if use_expr:
+        o2 = dict(opts)
+        o2['quant_cutoff'] = cutoff + rng.choice([0.005, 0.02, 3.0])
+        got3 = {s: canon(h) for h, s in run_filter(wd, 'f3', inp, o2)}
+        counters['monotone_runs'] = counters.get('monotone_runs', 0) + 1
+        if not all(s in gotd and es <= gotd[s] for s, es in got3.items()):
+            viol.append({'kind': 'filter-not-monotone-cutoff', 'msg': f'cutoff {cutoff} -> {o2["quant_cutoff"]} keeps more'})
+    if misc is not None and misc[1] - misc[0] >= 1:
+        o3 = dict(opts)
+        o3['miscleavages'] = f'{misc[0] + 1}:{misc[1]}' if rng.random() < 0.5 else f'{misc[0]}:{misc[1] - 1}'
+        got4 = {s: canon(h) for h, s in run_filter(wd, 'f4', inp, o3)}
+        counters['monotone_runs'] = counters.get('monotone_runs', 0) + 1
+        if not all(s in gotd and es <= gotd[s] for s, es in got4.items()):
+            viol.append({'kind': 'filter-not-monotone-miscleavage', 'msg': f'{opts["miscleavages"]} -> {o3["miscleavages"]} keeps more'})
+    kinds = sorted({entry_info(e)[0] for h, _ in fa for e in h.split(' ')})
+    feat = (tuple(kinds), use_index, use_expr, bool(deny), opts['keep_all_coding'], opts['keep_all_noncoding'],
+            opts['keep_canonical'], misc is not None, enzyme, has_header, cols[0].isdecimal(),
+            0 < len(gotd) < len(fa))
+    return {'nontrivial': True, 'feature': feat, 'violations': viol, 'counters': counters,
+            'sample': {'options': {k: str(v) for k, v in opts.items()}, 'input_peptides': len(fa), 'kept': len(gotd),
+                       'expression': dict(list(exprs.items())[:3]), 'cutoff': cutoff}}
+
+
+
+
+
+AA = 'ACDEFGHIKLMNPQRSTVWYKRKR'
+
+
+def synth_fasta(rng, ref):
+    """G-FASTA: peptides with arbitrary multi-entry headers of every label kind the tool emits (base with SNV / INDEL / MNV /
+    alternative-splicing / SECT / W2F ids, gene-qualified novel-ORF entries, fusion entries over every ordered transcript pair
+    with 1-/2- prefixed ids, circRNA / ciRNA entries), over coding and non-coding transcripts."""
+    txs = list(ref.all_txs())
+
+    def small_id():
+        k = rng.random()
+        n = rng.randint(1, 400)
+        if k < 0.5:
+            a, b = rng.sample('ACGT', 2)
+            return f'SNV-{n}-{a}-{b}'
+        if k < 0.8:
+            a = rng.choice('ACGT')
+            return rng.choice([f'INDEL-{n}-{a}-{a}{rng.choice("ACGT")}', f'INDEL-{n}-{a}{rng.choice("ACGT")}G-{a}'])
+        return f'MNV-{n}-AC-GT'
+
+    def as_id():
+        a = rng.randint(1, 300)
+        b = a + rng.randint(5, 80)
+        t = rng.choice(AS_TAGS)
+        if t == 'MXE':
+            return f'MXE_{a}-{b}-{b + 20}-{b + 60}'
+        if t == 'RI':
+            return f'RI_{a}-{a + 1}-{b}'
+        return f'{t}_{a}-{b}'
+
+    def entry(idx):
+        k = rng.random()
+        tx = rng.choice(txs)
+        if k < 0.45:
+            ids = [small_id() for _ in range(rng.randint(0, 2))]
+            if rng.random() < 0.25:
+                ids.append(as_id())
+            if rng.random() < 0.15:
+                ids.append(rng.choice([f'SECT-{rng.randint(1, 300)}', f'W2F-{rng.randint(1, 12)}']))
+            if not ids:
+                ids = [small_id()]
+            rng.shuffle(ids)
+            f = [tx.id] + ids
+            if not tx.coding or rng.random() < 0.1:
+                if all(x.startswith(('SECT-', 'W2F-')) for x in ids):
+                    f.insert(1, tx.gene.id)     # novel-ORF peptide with alt-translation ids only: gene-qualified (callNovelORF --w2f)
+                f.append(f'ORF{rng.randint(1, 4)}')
+            return '|'.join(f + [str(idx)])
+        if k < 0.55:
+            return f'{tx.id}|{tx.gene.id}|ORF{rng.randint(1, 4)}|{idx}'      # novel ORF peptide without variants
+        if k < 0.85:
+            t2 = rng.choice(txs)
+            f = [f'FUSION-{tx.id}:{rng.randint(1, 300)}-{t2.id}:{rng.randint(1, 300)}']
+            for _ in range(rng.randint(0, 2)):
+                f.append(f'{rng.choice([1, 2])}-{small_id()}')
+            if not tx.coding or rng.random() < 0.1:
+                f.append(f'ORF{rng.randint(1, 3)}')
+            return '|'.join(f + [str(idx)])
+        a = rng.randint(0, 200)
+        f = [f'{rng.choice(["CIRC", "CIRC", "CI"])}-{tx.id}-{a}:{a + rng.randint(20, 200)}']
+        for _ in range(rng.randint(0, 2)):
+            f.append(small_id())
+        f.append(f'ORF{rng.randint(1, 3)}')
+        return '|'.join(f + [str(idx)])
+    fa = []
+    seen = set()
+    for i in range(rng.randint(4, 30)):
+        s = ''.join(rng.choice(AA) for _ in range(rng.randint(6, 22)))
+        if s in seen:
+            continue
+        seen.add(s)
+        ents = []
+        for j in range(rng.choice([1, 1, 2, 3])):
+            e = entry(len(fa) * 4 + j + 1)
+            if e not in ents:
+                ents.append(e)
+        fa.append((' '.join(ents), s))
+    return fa
+
+
+def synth_case(spec):
+    from harness.gen import refgen
+    rng = random.Random(spec['seed'])
+    ref = refgen.make_reference(rng, n_genes=rng.randint(2, 4), coding_p=0.5, isoforms=(1, 2), min_exons=1, max_exons=3,
+                                exon_len=(30, 90))
+    wd = drivers.case_dir('c19s-')
+    try:
+        refgen.write_reference(ref, wd)
+        fa = synth_fasta(rng, ref)
+        with open(f'{wd}/out.fasta', 'w') as fh:
+            for h, s in fa:
+                fh.write(f'>{h}\n{s}\n')
+        return judge(rng, ref, wd, fa, {'cases': 1, 'synthetic_cases': 1}, [], synthetic=True)
+    finally:
+        drivers.rm(wd)
+
+
 def run_case(spec):
+    if spec.get('kind') == 'synth':
+        return synth_case(spec)
     rng = random.Random(spec['seed'])
     case = None
     for k in range(6):
         case = cv.build_case({'seed': common.hash64(spec['seed'], k), 'stratum': rng.choice(
             ['small', 'multi', 'multi', 'as', 'fusion_var', 'circ_var']),
             'cfg': {'rule': 'trypsin', 'exception': None, 'min_length': 5, 'min_mw': 0., 'miscleavage': rng.choice([2, 3]),
-                    'sect': False, 'w2f': rng.random() < 0.2}})
+                    'sect': spec.get('sect', False), 'w2f': rng.random() < 0.2}})
         if case is not None:
             break
     if case is None:
@@ -93,119 +324,7 @@ def run_case(spec):
         fa, _ = cvmon.execute(case, wd, paths)
         if not fa:
             return {'nontrivial': False, 'counters': {'cases': 1, 'empty_fasta': 1}}
-        coding_true = {t.id for t in case.ref.all_txs() if t.coding}
-        use_index = rng.random() < 0.75
-        if use_index:
-            idx = drivers.generate_index(wd, f'{wd}/index')
-            ref = dict(index_dir=idx, annotation_gtf=None)
-            coding = coding_true
-        else:
-            ref = dict(index_dir=None, annotation_gtf=Path(wd) / 'annotation.gtf')
-            coding = coding_true
-        # expression table: values at cutoff-eps / cutoff / cutoff+eps
-        cutoff = rng.choice([0.0, 1.0, 5.5, 10.0])
-        txs = [t.id for t in case.ref.all_txs()]
-        exprs = {t: rng.choice([cutoff - 0.01, cutoff, cutoff + 0.01, 0.0, cutoff * 2 + 1]) for t in txs}
-        has_header = rng.random() < 0.5
-        delim = rng.choice(['\t', ','])
-        with open(f'{wd}/expr.txt', 'w') as fh:
-            skip = rng.randint(0, 2)
-            for _ in range(skip):
-                fh.write('# comment line\n')
-            if has_header:
-                fh.write(delim.join(['transcript_id', 'gene', 'TPM']) + '\n')
-            for t in txs:
-                fh.write(delim.join([t, 'G', repr(exprs[t])]) + '\n')
-        use_expr = rng.random() < 0.8
-        if has_header and rng.random() < 0.5:
-            cols = ('transcript_id', 'TPM')
-        else:
-            cols = ('1', '3')
-        if has_header and cols == ('1', '3'):
-            skip += 1          # numeric columns: the header line has to be skipped by the user
-        seqs = [s for _, s in fa]
-        deny = set(rng.sample(seqs, rng.randint(0, min(4, len(seqs))))) if rng.random() < 0.5 else set()
-        if deny:
-            with open(f'{wd}/deny.fasta', 'w') as fh:
-                for i, s in enumerate(sorted(deny)):
-                    fh.write(f'>d{i}\n{s}\n')
-        lo = rng.choice([None, 0, 1])
-        hi = rng.choice([None, 0, 1, 2])
-        misc = None if (lo is None and hi is None) or rng.random() < 0.4 else (lo, hi)
-        enzyme = rng.choice(['trypsin', 'trypsin', 'lysc'])
-        opts = dict(denylist=Path(wd) / 'deny.fasta' if deny else None,
-                    exprs_table=Path(wd) / 'expr.txt' if use_expr else None, skip_lines=skip, delimiter=delim,
-                    tx_id_col=cols[0], quant_col=cols[1], quant_cutoff=cutoff if use_expr else None,
-                    keep_all_coding=rng.random() < 0.3, keep_all_noncoding=rng.random() < 0.3,
-                    keep_canonical=rng.random() < 0.4,
-                    miscleavages=None if misc is None else f"{'' if misc[0] is None else misc[0]}:{'' if misc[1] is None else misc[1]}",
-                    enzyme=enzyme, **ref)
-        if misc is not None and (misc[0] is None or misc[1] is None):
-            # the CLI parses both bounds with int(): an open bound is not accepted; use closed ranges only
-            misc = (misc[0] if misc[0] is not None else 0, misc[1] if misc[1] is not None else 9)
-            opts['miscleavages'] = f'{misc[0]}:{misc[1]}'
-        inp = f'{wd}/out.fasta'
-        got = run_filter(wd, 'f1', inp, opts)
-        counters['filter_runs'] = 1
-
-        def canon(h):
-            out = set()
-            for e in h.split(' '):
-                b, ids, orf, idx = cv.parse_entry(e)
-                out.add((b, tuple(sorted(ids)), orf, idx))
-            return out
-        want = model_filter(fa, coding, exprs if use_expr else None, cutoff, opts['keep_all_coding'],
-                            opts['keep_all_noncoding'], deny, opts['keep_canonical'], enzyme, misc)
-        gotd = {s: canon(h) for h, s in got}
-        mech = None
-        if gotd != want and not use_index:
-            want0 = model_filter(fa, set(), exprs if use_expr else None, cutoff, opts['keep_all_coding'],
-                                 opts['keep_all_noncoding'], deny, opts['keep_canonical'], enzyme, misc)
-            if gotd == want0:
-                mech = 'KF-FILTER-GTF-CODING'
-        if gotd != want:
-            only_w = sorted(set(want) - set(gotd))[:3]
-            only_g = sorted(set(gotd) - set(want))[:3]
-            diff = [(s, sorted(gotd[s]), sorted(want[s])) for s in gotd if s in want and gotd[s] != want[s]][:2]
-            viol.append({'kind': 'filter-mismatch', 'mech': mech,
-                         'msg': f'options { {k: str(v) for k, v in opts.items() if k not in ("index_dir", "annotation_gtf")} } '
-                                f'reference={"index" if use_index else "gtf"}: dropped-but-expected {only_w} kept-but-unexpected {only_g} '
-                                f'entry differences {diff}'})
-        if len(got) != len(gotd):
-            viol.append({'kind': 'filter-duplicates', 'msg': 'a sequence occurs twice in the output'})
-        entries_in = {s: canon(h) for h, s in fa}
-        for s, es in gotd.items():
-            if s not in entries_in or not es <= entries_in[s]:
-                viol.append({'kind': 'filter-not-subcollection', 'msg': f'{s}: {sorted(es)}'})
-                break
-        # idempotence
-        got2 = run_filter(wd, 'f2', f'{wd}/f1.fasta', opts)
-        if {s: canon(h) for h, s in got2} != gotd:
-            viol.append({'kind': 'filter-not-idempotent', 'msg': f'{len(gotd)} -> {len(got2)} peptides on the second pass',
-                         'mech': mech})
-        counters['idempotence_runs'] = 1
-        # monotonicity: stricter cutoff, narrower miscleavage range
-        if use_expr:
-            o2 = dict(opts)
-            o2['quant_cutoff'] = cutoff + rng.choice([0.005, 0.02, 3.0])
-            got3 = {s: canon(h) for h, s in run_filter(wd, 'f3', inp, o2)}
-            counters['monotone_runs'] = counters.get('monotone_runs', 0) + 1
-            if not all(s in gotd and es <= gotd[s] for s, es in got3.items()):
-                viol.append({'kind': 'filter-not-monotone-cutoff', 'msg': f'cutoff {cutoff} -> {o2["quant_cutoff"]} keeps more'})
-        if misc is not None and misc[1] - misc[0] >= 1:
-            o3 = dict(opts)
-            o3['miscleavages'] = f'{misc[0] + 1}:{misc[1]}' if rng.random() < 0.5 else f'{misc[0]}:{misc[1] - 1}'
-            got4 = {s: canon(h) for h, s in run_filter(wd, 'f4', inp, o3)}
-            counters['monotone_runs'] = counters.get('monotone_runs', 0) + 1
-            if not all(s in gotd and es <= gotd[s] for s, es in got4.items()):
-                viol.append({'kind': 'filter-not-monotone-miscleavage', 'msg': f'{opts["miscleavages"]} -> {o3["miscleavages"]} keeps more'})
-        kinds = sorted({entry_info(e)[0] for h, _ in fa for e in h.split(' ')})
-        feat = (tuple(kinds), use_index, use_expr, bool(deny), opts['keep_all_coding'], opts['keep_all_noncoding'],
-                opts['keep_canonical'], misc is not None, enzyme, has_header, cols[0].isdecimal(),
-                0 < len(gotd) < len(fa))
-        return {'nontrivial': True, 'feature': feat, 'violations': viol, 'counters': counters,
-                'sample': {'options': {k: str(v) for k, v in opts.items()}, 'input_peptides': len(fa), 'kept': len(gotd),
-                           'expression': dict(list(exprs.items())[:3]), 'cutoff': cutoff}}
+        return judge(rng, case.ref, wd, fa, counters, viol)
     finally:
         drivers.rm(wd)
 
@@ -214,13 +333,17 @@ def check(rep, tier, seed, specs=None, n_override=None):
     quick = tier == 'quick'
     if specs is None:
         n = n_override or (1200 if quick else 60000)
-        specs = [{'seed': common.hash64('c19', 'fixed' if i < n // 2 else seed, i)} for i in range(n)]
+        specs = [{'seed': common.hash64('c19', 'fixed' if i < n // 2 else seed, i), 'sect': i % 3 == 0} for i in range(n)]
+        ns_ = n * 3
+        specs += [{'kind': 'synth', 'seed': common.hash64('c19s', 'fixed' if i < ns_ // 2 else seed, i)} for i in range(ns_)]
     results, lost = common.shard_run('c19', specs, timeout_s=1500 if quick else 5 * 3600)
     rep.rule = ('real callVariant FASTAs (base, AS, fusion, circRNA entries; multi-isoform) x expression tables with values at cutoff-0.01 / '
                 'cutoff / cutoff+0.01 (header or not, tab or comma, column by name or number, skipped lines) x denylists drawn from the input x '
                 'keep-all-coding / keep-all-noncoding / keep-canonical x miscleavage ranges x enzyme x reference as generateIndex directory (75%) '
                 'or raw GTF; own per-entry predicate from the documented rule; plus idempotence (second pass) and monotonicity (stricter cutoff, '
-                'narrower miscleavage range). non-trivial = non-empty input FASTA; distinct = option vector.')
+                'narrower miscleavage range). Three quarters of the cases use generated FASTAs instead (arbitrary multi-entry headers of every label '
+                'kind: base / gene-qualified novel ORF / fusion over every ordered coding x non-coding transcript pair / circRNA / ciRNA, with '
+                'SNV, INDEL, MNV, alternative-splicing, SECT and W2F ids). non-trivial = non-empty input FASTA; distinct = option vector.')
     rep.absorb(results, lost)
     for k in ('filter_runs', 'idempotence_runs', 'monotone_runs'):
         if not rep.counters.get(k):
